@@ -1,0 +1,30 @@
+//go:build verif
+
+// Contracts for the deductive verifier under /verif (govc). Comment-only file: it adds no code and is
+// compiled only with the build tag "verif".
+
+package loader
+
+// ---- loader pool: a loader goes back to the pool only in the reset state (C10) -------------------------
+
+//@ pred loaderIsReset(l *loader) := l.rootSchema == nil && l.scanner == nil && l.lastAddedNode == nil && l.rules == nil
+//@     && l.rule == nil && l.node == nil && l.mode == 0 && l.nodesPerCurrentLineCount == 0
+//@     && fresh(l.schema.types) && len(l.schema.types) == 0 && l.schema.rootNode == nil
+
+//@ func (*loader).reset
+//@   property C10
+//@   requires l != nil
+//@   modifies *l
+//@   ensures loaderIsReset(l)
+//@   no_panic
+
+//@ pred loaderCleared(l *loader) := l.rootSchema == nil && l.scanner == nil && l.lastAddedNode == nil && l.rules == nil
+//@     && l.rule == nil && l.node == nil && l.mode == 0 && l.nodesPerCurrentLineCount == 0
+//@     && len(l.schema.types) == 0 && l.schema.rootNode == nil
+
+//- the deferred closure of LoadSchemaWithoutCompile (l is the captured variable, hence *l)
+//@ func LoadSchemaWithoutCompile$1
+//@   property C10
+//@   requires l != nil && *l != nil
+//@   modifies *(*l)
+//@   at call:Put assert loaderCleared(*l)
